@@ -41,6 +41,12 @@ Decided (DESIGN.md section 5, C09):
 Findings on the pristine tree (genuine, see KNOWN): X2 for Bzip2Decompressor (F5a), X1/X2/N1 for both buffer decompressors (F5b),
 and N1 for Bzip2Decompressor on the path that has just reopened the handle for the next stream.
 
+Limits of what is decided (a miss is preferred to a false alarm): N1 accepts a path as soon as it passes a branch whose condition
+reads the byte count (count variable, next_out / avail_out, size()/empty() of the returned string) -- the direction of that test is
+not examined; locals initialised once are looked through (`const auto n = ...; resize(n)`, `const bool more = unused != 0`), tests or
+re-initialisations moved into a library helper are recognised as such (X1) or reported as unknown shape (X2, exit 2), never as a
+violation.
+
 NOT decided: byte equality with a reference decompressor; behaviour at particular buffer alignments; that the reported offset
 never exceeds the file size (gzoffset / ftell are informational); what zlib's gz layer does between members (gzread is
 whitelisted for clause 3 by the convention table); NoDecompressor's memory-buffer branch (uncompressed input, not C09);
@@ -48,10 +54,10 @@ positivity of the requested length (a zero-length request would make 0 ambiguous
 """
 from .. import errdisc as E
 from ..c08_util import in_io_layer
-from ..c09_util import (DECOMP, RTM, PULLS, OPEN_CLOSE, dedupe, decompressor_classes, read_path_functions, method_of, pull_calls,
+from ..c09_util import (DECOMP, RTM, OPEN_CLOSE, dedupe, decompressor_classes, read_path_functions, method_of, pull_calls,
                         call_name, assume, walk_from, returned_local, stream_field, count_resizes, count_test_elements,
                         unconsumed_zero_guard, guard_signature, end_declarations, string_call_on, STRING_MUTATORS, addr_carrier,
-                        field_assigned_from, data_sources, catch_all_handler, nodes_in_handler, must_pass, is_exit, scn, reaches,
+                        field_assigned_from, data_sources, handle_arg_is, helper_reaches, catch_all_handler, nodes_in_handler, must_pass, is_exit, scn, reaches,
                         assigned_from)
 from ..flow import path_search, describe_path
 
@@ -228,6 +234,8 @@ def _one_pull(fb, R, fn, call, pull, X):
         R.broken('%s (%s): status channel of %s has an unknown shape' % (fn.q, site, name))
         return
     reinits = [fn.nodes[e] for e in sorted(o_end.reached) if E.is_extern_c(fn.nodes[e]) and fn.nodes[e]['q'] in pull.reinit]
+    # the same through an extracted helper of the library (X4 then has no argument list to look at)
+    reinits += [fn.nodes[e] for e in sorted(o_end.reached) if helper_reaches(fb, fn, fn.nodes[e], names=pull.reinit)]
     sname = pull.names.get('stream-end', 'stream end')
     R.check(bool(reinits), 'X1-stream-end-continues', base + ':next-stream-started', site,
             'after %s reported %s no call that starts decoding a following stream (%s) is reachable: concatenated streams after the first '
@@ -267,6 +275,12 @@ def _one_pull(fb, R, fn, call, pull, X):
             R.bad('X2-end-only-when-input-consumed', key, fn.loc(did),
                   '%s can execute although %s reported %s (more to come): the rest of the data is dropped' % (fn.expr(did), name, pull.names.get('more', 'more')))
             continue
+        if not uz and pull.unused is not None:
+            qn = (pull.unused[1],) if pull.unused[0] == 'query' else ()
+            mem = ('avail_in',) if pull.unused[0] == 'avail_in' else ()
+            if any(helper_reaches(fb, fn, fn.nodes[x], names=qn, members=mem) for (c, _s, _b) in E.guards(fn, did) for x in fn.subtree(c)):
+                R.broken('%s (%s): %s is guarded by a helper that looks at the unconsumed input; unknown shape' % (fn.q, fn.loc(did), fn.expr(did)))
+                continue
         R.check(uz, 'X2-end-only-when-input-consumed', key, fn.loc(did),
                 '%s declares the end of the data after %s without a test that the library\'s unconsumed input is empty (%s)%s: bytes of a '
                 'following stream that the library has already read are dropped'
@@ -312,6 +326,8 @@ def _unused_rules(fb, R, fn, call, pull, o_end, reinits):
                 'no read of the unused-bytes pointer is reachable from a close of the handle')
         # X4: the reopen is given the unused bytes
         for r in reinits:
+            if not E.is_extern_c(r):
+                continue
             ra = r.get('args', [])
             srcs = set()
             for a in ra[4:6]:
@@ -344,8 +360,7 @@ def close_rules(fb, R):
         for fn in closes:
             for fq, opener in sorted(handles.items()):
                 fname = fq.rsplit('::', 1)[-1]
-                lib = [n for n in fn.all_nodes() if E.is_extern_c(n) and n['q'] in OPEN_CLOSE[opener]
-                       and any((fn.root_var(a) or ('',))[:2] == ('field', fq) for a in n.get('args', []) if a is not None)]
+                lib = [n for n in fn.all_nodes() if E.is_extern_c(n) and n['q'] in OPEN_CLOSE[opener] and handle_arg_is(fn, n, fq)]
                 env = {('field', fq): E.ge(1)}
                 o = E.explore(fn, (fn.entry, 0), env, fb=fb, stop_at={n['id'] for n in lib})
                 key = '%s#closes-%s-handle' % (fn.q, opener)
@@ -358,6 +373,7 @@ def close_rules(fb, R):
                               and E.carrier_of(fn, n['lhs']) == ('field', fq) and E.const_of(fn, n['rhs']) == 0}
                     o2 = walk_from(fb, fn, c, stop_at=resets)
                     ok = o2 is not None and not o2.exits and not o2.throws and not o2.truncated
+                    ok = ok or any(fn.elem_dominates(r, c['id']) for r in resets)    # `h = m_h; m_h = nullptr; close(h)`
                     R.check(ok, 'K2-handle-reset-before-throw', '%s#%s-reset-after-%s' % (fn.q, fname, c['q']), fn.loc(c['id']),
                             'after %s the member %s is not reset on every path before close() returns or throws: the destructor calls close() '
                             'again and would hand the freed handle to the library a second time' % (c['q'], fname),
@@ -470,8 +486,10 @@ def run(ctx):
     R.expect('K2-handle-reset-before-throw', 2)
     R.expect('T1-read-thread-closes-in-try', 3)
     R.expect('T2-every-chunk-forwarded', 1)
-    # X3 / X4 exist only while a decompressor uses the BZ2_bzReadGetUnused convention (1 each today); a rewrite that drops the
-    # query is reported by X1 / X4, not by a floor
+    # X3 / X4 exist while a decompressor uses the BZ2_bzReadGetUnused convention (Bzip2Decompressor).  Dropping the reopen is an X1
+    # violation, reopening without the query an X4 violation (both outrank the floor); a redesign without that API is unknown shape.
+    R.expect('X3-unused-copied-before-close', 1)
+    R.expect('X4-reopen-receives-unused', 1)
 
 
 # ------------------------------------------------------------------------------------------------ positive example
